@@ -274,6 +274,52 @@ func runOpsOn(f *fox.Router, opsField string) (outI, outJ, oracles []string) {
 			err := f.Updates(func(txn *fox.Txn) error { return txn.Truncate(ms...) })
 			s := classifyErr(err)
 			emit(s, s)
+		case a[0] == "G" && len(a) == 3:
+			// inner writes in one write transaction, committed (o) or aborted (e)
+			txn := f.Txn(true)
+			var res []string
+			for _, in := range strings.Split(a[2], "&") {
+				if in == "" {
+					continue
+				}
+				b := strings.Split(in, ":")
+				switch {
+				case b[0] == "H" && len(b) == 5:
+					flags, _ := strconv.Atoi(b[3])
+					hid, _ := strconv.Atoi(b[4])
+					_, err := txn.Handle(b[1], unhx(b[2]), mkHandler(hid), routeOpts(flags, hid)...)
+					res = append(res, classifyErr(err))
+				case b[0] == "U" && len(b) == 5:
+					flags, _ := strconv.Atoi(b[3])
+					hid, _ := strconv.Atoi(b[4])
+					_, err := txn.Update(b[1], unhx(b[2]), mkHandler(hid), routeOpts(flags, hid)...)
+					res = append(res, classifyErr(err))
+				case b[0] == "D" && len(b) == 3:
+					r, err := txn.Delete(b[1], unhx(b[2]))
+					s := classifyErr(err)
+					if err == nil {
+						s = "ok:" + hidOf(r)
+					}
+					res = append(res, s)
+				case b[0] == "T" && len(b) == 2:
+					var ms []string
+					for _, m := range strings.Split(b[1], "+") {
+						if m != "" {
+							ms = append(ms, m)
+						}
+					}
+					res = append(res, classifyErr(txn.Truncate(ms...)))
+				default:
+					res = append(res, "bad-op")
+				}
+			}
+			if a[1] == "o" {
+				txn.Commit()
+			} else {
+				txn.Abort()
+			}
+			s := strings.Join(res, "&")
+			emit(s, s)
 		case a[0] == "L" && len(a) == 4:
 			res, o := lookupAll(f, cur, a[1], unhx(a[2]), unhx(a[3]))
 			if o != "" {
